@@ -63,6 +63,7 @@ class Class(abc.ABCMeta):
 
         def __init__(self, *args, **kwargs):
             self._origin = self.Origin(*args, **kwargs)
+            self._signature = args, kwargs  # to re-create the origin when unpickling
 
         def apply(self, *features: flow.Features) -> flow.Result:
             return self.Mapping['apply'](*features)
@@ -73,7 +74,7 @@ class Class(abc.ABCMeta):
             return callable(attr) or hasattr(cls.Origin, attr)
 
         def __getattribute__(self, item):
-            if item not in {'Origin', 'Mapping', '_origin'}:
+            if item not in {'Origin', 'Mapping', '_origin', '_signature'}:
                 if item in self.Mapping:
                     attr = self.Mapping[item]
                     return self.Decorated(self._origin, attr) if callable(attr) else getattr(self._origin, attr)
@@ -116,8 +117,8 @@ class Class(abc.ABCMeta):
         copyreg.pickle(
             actor,
             lambda a: (
-                actor,
-                (),
+                functools.partial(actor, **a._signature[1]),
+                a._signature[0],
                 (a.get_state(), a.get_params()),
                 None,
                 None,
